@@ -258,7 +258,7 @@ func (c *Ctx) c05Writer() {
 				if !ok {
 					continue
 				}
-				if fr, ok := core.FieldOfValue(u); ok && fr.Is(pkWire, "dataWriter", "closed") {
+				if fr, ok := core.FieldOfValue(u); ok && fr.Is(pkWire, "dataWriter", c.dwField("closed")) {
 					open = append(open, boolEdges(u, false)...)
 					closed = append(closed, boolEdges(u, true)...)
 				}
@@ -276,7 +276,7 @@ func (c *Ctx) c05Writer() {
 		for _, b := range fn.Blocks {
 			for _, in := range b.Instrs {
 				if st, isStore := in.(*ssa.Store); isStore {
-					if fr, ok := core.FieldOfAddr(st.Addr); ok && fr.Is(pkWire, "dataWriter", "closed") {
+					if fr, ok := core.FieldOfAddr(st.Addr); ok && fr.Is(pkWire, "dataWriter", c.dwField("closed")) {
 						closers = append(closers, in)
 					}
 				}
@@ -387,16 +387,16 @@ func (c *Ctx) c05Writer() {
 					continue
 				}
 				switch {
-				case fr.Is(pkWire, "dataWriter", "closed"):
+				case fr.Is(pkWire, "dataWriter", c.dwField("closed")):
 					nClosedStores++
 					cv, isC := st.Val.(*ssa.Const)
 					R.Check(isC && cv.Value != nil && cv.Value.ExactString() == "true", "C05.R3", fkey(fn)+":closed-monotone", c.at(st), "the closed flag only ever becomes true (a finished writer cannot be reopened)", "stores the constant true", "a store to dataWriter.closed writes something other than the constant true")
-				case fr.Is(pkWire, "dataWriter", "written"):
+				case fr.Is(pkWire, "dataWriter", c.dwField("written")):
 					nWrittenStores++
 					inc := false
 					if bo, isB := st.Val.(*ssa.BinOp); isB && bo.Op == token.ADD {
 						if k, okk := core.ConstInt(bo.Y); okk && k == 1 {
-							if lf, okl := core.FieldOfValue(bo.X); okl && lf.Is(pkWire, "dataWriter", "written") {
+							if lf, okl := core.FieldOfValue(bo.X); okl && lf.Is(pkWire, "dataWriter", c.dwField("written")) {
 								inc = true
 							}
 						}
@@ -532,7 +532,7 @@ func (c *Ctx) c05Writer() {
 		for _, b := range ndw.Blocks {
 			for _, in := range b.Instrs {
 				if st, ok := in.(*ssa.Store); ok {
-					if fr, ok := core.FieldOfAddr(st.Addr); ok && (fr.Is(pkWire, "dataWriter", "closed") || fr.Is(pkWire, "dataWriter", "written")) {
+					if fr, ok := core.FieldOfAddr(st.Addr); ok && (fr.Is(pkWire, "dataWriter", c.dwField("closed")) || fr.Is(pkWire, "dataWriter", c.dwField("written"))) {
 						R.Fail("C05.R3", "NewDataWriter:initial-state", c.at(st), "a new writer starts open with a zero row counter", "NewDataWriter initialises "+fr.Name)
 					}
 				}
@@ -601,7 +601,7 @@ func (c *Ctx) blockClosesWriter(b *ssa.BasicBlock) bool {
 	for _, in := range b.Instrs {
 		switch v := in.(type) {
 		case *ssa.Store:
-			if fr, ok := core.FieldOfAddr(v.Addr); ok && fr.Is(pkWire, "dataWriter", "closed") {
+			if fr, ok := core.FieldOfAddr(v.Addr); ok && fr.Is(pkWire, "dataWriter", c.dwField("closed")) {
 				return true
 			}
 		case *ssa.Call:
@@ -658,4 +658,34 @@ func (c *Ctx) writerLatchesOnlyBufferErrors(rule string) {
 		}
 	}
 	R.Floor(rule, "assignments of Writer.err", n, 3)
+}
+
+// dwField resolves the state fields of the result writer by what they are, not what they are called: the flag is the
+// writer's only bool field, the row counter its only integer field (the names are the fall-back).
+func (c *Ctx) dwField(role string) string {
+	dw := c.P.Named("wire", "dataWriter")
+	if dw == nil {
+		return role
+	}
+	st, ok := dw.Underlying().(*types.Struct)
+	if !ok {
+		return role
+	}
+	var found []string
+	for i := 0; i < st.NumFields(); i++ {
+		bt, isB := st.Field(i).Type().Underlying().(*types.Basic)
+		if !isB {
+			continue
+		}
+		switch {
+		case role == "closed" && bt.Kind() == types.Bool:
+			found = append(found, st.Field(i).Name())
+		case role == "written" && bt.Info()&types.IsInteger != 0:
+			found = append(found, st.Field(i).Name())
+		}
+	}
+	if len(found) == 1 {
+		return found[0]
+	}
+	return role
 }
